@@ -1,6 +1,7 @@
 package main
 
 import (
+	"encoding/json"
 	"fmt"
 	"hash/crc64"
 	"math/rand"
@@ -23,9 +24,12 @@ func (c Cfg) RefLayer(n uint64) int {
 	switch c.KK {
 	case "vk":
 		return int(n & 0xff)
-	case "u64":
+	case "u64", "uint":
 		return refUintLayer(n, uint64(c.BF))
-	case "i64":
+	case "sk":
+		js, _ := json.Marshal(SK{strKey(n)})
+		return refUintLayer(crc64.Checksum(js, crcTab), uint64(c.BF))
+	case "i64", "int":
 		v := int64(n) - i64bias
 		if v < 0 {
 			v = -v
@@ -40,7 +44,7 @@ func (c Cfg) RefLayer(n uint64) int {
 }
 
 var allBF = []uint{2, 3, 4, 16}
-var allKK = []string{"vk", "u64", "i64", "str", "bytes"}
+var allKK = []string{"vk", "u64", "i64", "str", "bytes", "int", "uint", "sk"}
 var allVK = []string{"u64", "bytes", "str", "ptr", "iface"}
 var allCache = []string{"none", "big", "tiny"}
 
@@ -88,7 +92,7 @@ func Universe(r *rand.Rand, c Cfg, n int) []uint64 {
 			if !dup {
 				add(id<<8 | uint64(l))
 			}
-		case "u64":
+		case "u64", "uint":
 			l := 0
 			for l < 5 && r.Intn(int(bf)) == 0 {
 				l++
@@ -101,7 +105,7 @@ func Universe(r *rand.Rand, c Cfg, n int) []uint64 {
 				v = 0
 			}
 			add(v)
-		case "i64":
+		case "i64", "int":
 			l := 0
 			for l < 4 && r.Intn(int(bf)) == 0 {
 				l++
@@ -117,7 +121,7 @@ func Universe(r *rand.Rand, c Cfg, n int) []uint64 {
 				v = -v
 			}
 			add(uint64(v + i64bias))
-		case "str":
+		case "str", "sk":
 			add(uint64(r.Intn(26 * 26 * 26 * 26 * 26)))
 		case "bytes":
 			add(uint64(r.Intn(1 << 24)))
